@@ -1350,6 +1350,11 @@ def compare(it, op, a, b):
     """python bool or z3 Bool"""
     from .interp import ClassVal, ExcClass, FuncVal, I as toI, R, SliceVal
 
+    h = getattr(it, "compare_hook", None)
+    if h is not None:
+        r = h(it, op, a, b)
+        if r is not None:
+            return r
     if op in (ast.Is, ast.IsNot):
         if a is None or b is None or isinstance(a, (bool, str)) or isinstance(b, (bool, str)):
             r = a is b
